@@ -110,7 +110,7 @@ namespace abandon {
   struct when_exceeds_threshold {
     using retire_list = detail::counting_retire_list<>;
     static void apply(retire_list& retire_list, detail::orphan_list<>& orphans) {
-      if (retire_list.size() >= Threshold) {
+      if (!retire_list.empty() && retire_list.size() >= Threshold) {
         orphans.add(retire_list.steal());
       }
     }
